@@ -167,7 +167,7 @@ func prepare(repo, verifDir string, forcePlain bool) (*prepared, error) {
 			return "", fmt.Errorf("instrument: %w", err)
 		}
 		p.Instr = res
-		if res.MapRanges > 0 {
+		if res.MapRanges > 0 || res.NeedsGo123 {
 			if err := instr.BumpGoVersion(scratch); err != nil {
 				return "", err
 			}
